@@ -82,7 +82,8 @@ def gen_case(rng, tier, index):
                 "copies": rng.choice([1, 2, 3, 5, 8, 20]),
                 "via": rng.choice(["scope", "insert_at"]),
                 "shape": rng.choice(["loop", "skip", "both", "data-ref"]),
-                "global_label": rng.random() < 0.3}
+                "global_label": rng.random() < 0.3,
+                "set_const": rng.random() < 0.3}
     c = c12.gen_case(rng, tier, index)
     c["w"] = "chunks"
     c["allow_undef"] = False
@@ -244,6 +245,27 @@ def run_multidef(c):
         if not isinstance(e, AssemblerError):
             viol.append({"key": f"multidef:raises-{type(e).__name__}",
                          "msg": f"{e!r}"[:400]})
+    if c["dup"] == "own":
+        # the two definitions in different assemble() calls of one Assembler
+        idx = [i for i, ln in enumerate(c["lines"]) if ln.get("l") == "dupl"]
+        cuts = [k for k in valid_boundaries(c) if idx[0] < k <= idx[1]]
+        if cuts:
+            k = cuts[len(cuts) // 2]
+            chunks = [c12.render(dict(c, lines=c["lines"][:k])),
+                      c12.render(dict(c, lines=c["lines"][k:]))]
+            ctr["multidef_chunked"] = 1
+            try:
+                assemble(c, chunks)
+                viol.append({"key": "multidef:accepted:own:across-chunks",
+                             "msg": "\n---\n".join(chunks)[:600]})
+            except MultipleDefinitionsError:
+                pass
+            except Exception as e:  # noqa
+                from gtirb_rewriting.assembler import AssemblerError
+                if not isinstance(e, AssemblerError):
+                    viol.append({
+                        "key": f"multidef:raises-{type(e).__name__}",
+                        "msg": f"{e!r}"[:400]})
     return {"sig": f"multidef:{c['isa']}-{c['fmt']}:{c['dup']}",
             "violations": viol, "counters": ctr}
 
@@ -282,6 +304,9 @@ def run_nfold(c):
         lines += [f"{tmp}here:", vocab.asm_text(isa, "lea_sym",
                                                 f"{tmp}here"),
                   vocab.asm_text(isa, "lea_sym", "dat")]
+    if c.get("set_const"):
+        # a temporary name defined by assignment instead of as a label
+        lines.insert(1, f".set {tmp}kconst, 16")
     lines.append(vocab.asm_text(isa, "nop"))
     text = "\n".join(lines) + "\n"
     calls = []
@@ -359,6 +384,14 @@ def run_nfold(c):
         if want and len(cps) != want:
             viol.append({"key": "nfold:temp-labels-not-one-per-copy",
                          "msg": f"{kind}: copies {sorted(map(str, cps))}"})
+    if c.get("set_const"):
+        ks = [s for nme, ss in names.items() for s in ss
+              if nme.startswith(f"{tmp}kconst")]
+        if len(ks) != n or any(s.referent is not None or s.value != 16
+                               for s in ks):
+            viol.append({"key": "nfold:assigned-temp-names",
+                         "msg": f"{[(s.name, s.value) for s in ks]} "
+                                f"for {n} copies"})
     if c["shape"] == "data-ref":
         # each copy's expression names its own label
         bi = bu.intervals[0][0]
@@ -375,7 +408,7 @@ def run_nfold(c):
                     viol.append({"key": "nfold:module-name-rebound",
                                  "msg": "dat"})
     sig = (f"nfold:{isa}-{c['fmt']}:{c['via']}:{c['shape']}:{n}:"
-           f"{int(c['global_label'])}")
+           f"{int(c['global_label'])}{int(bool(c.get('set_const')))}")
     return {"sig": sig, "violations": viol, "counters": ctr}
 
 
